@@ -63,18 +63,31 @@ Theorem C11_only_reports_change_list : forall P d c d',
 Proof. exact other_cmds_keep_kill. Qed.
 Print Assumptions C11_only_reports_change_list.
 
-(** persistence (partial): a stray that is reported again is entered again.  Proved for the entry listed FIRST in
-    the report - the view it is judged against is then the DB's view; for later entries the view may have been
-    moved by the earlier entries of the same report, and "still a stray" then needs the consistency of reports with
-    a membership history (C04), which is not assumed here.
-    Full statement: for every entry of the report that is a stray of the view at its turn. *)
-Theorem C11_persistent_partial : forall P d r0 ci rest d' v,
+(** Exact characterisation, persistence included, for reports that list every shard at most once (a NodeHost runs at
+    most one replica per shard, so every real report has this shape): after the report the entries of the reporter are
+    EXACTLY the listed replicas that are strays of the DB's view ([kill_cond]: shard known with a strictly newer version,
+    replica not a member; for pending / incomplete entries additionally a non-empty shard record with positive version),
+    in report order - so a stray that keeps being reported keeps being listed, once. *)
+Theorem C11_exact : forall P d r d' v,
+  NoDup (si_shard <$> rp_infos r) ->
+  db_step P d (CReport r) = SOk d' v ->
+  d_kill d' = filter (λ k, k_addr k ≠ rp_addr r) (d_kill d) ++
+              ((λ ci, mkKill (si_shard ci) (si_replica ci) (rp_addr r)) <$> filter (λ ci, kill_cond (d_view d) ci = true) (rp_infos r)).
+Proof. exact report_kill_list_exact. Qed.
+Print Assumptions C11_exact.
+
+Theorem C11_kill_cond_is_stray : forall view ci, kill_cond view ci = true -> stray view ci.
+Proof. exact kill_cond_stray. Qed.
+Print Assumptions C11_kill_cond_is_stray.
+
+(** without the one-entry-per-shard shape: persistence for the entry listed first *)
+Theorem C11_persistent_head : forall P d r0 ci rest d' v,
   rp_infos r0 = ci :: rest -> db_step P d (CReport r0) = SOk d' v ->
   (exists ec, d_view d !! si_shard ci = Some ec /\ si_cci ci < s_cci ec /\ s_reps ec !! si_replica ci = None /\
               size (s_reps ec) ≠ 0%nat) ->
   mkKill (si_shard ci) (si_replica ci) (rp_addr r0) ∈ d_kill d'.
 Proof. exact stray_head_persistent. Qed.
-Print Assumptions C11_persistent_partial.
+Print Assumptions C11_persistent_head.
 
 (** Non-vacuity: view of shard 1 at version 5 with members 11,12; host 3 reports replica 13 at version 3 (removed
     member with old data): entered; reported again: still exactly one entry; host 3 reports nothing: gone. *)
